@@ -362,6 +362,7 @@ def exec : Nat → Instr → M Unit
         | some (_, .fn f) =>
           let fo := fnOf s f
           if fo.varargs then wrangleOptargs fo.nargs nargs
+          else if nargs ≠ fo.nargs then err       -- fix C09-02: the arity check of CallFunction
           incPc
         | some _ => incPc
     | .pushLazy e => do
@@ -505,6 +506,10 @@ def builtin : Nat → String → List Val → M Val
       let v := args.headD .nil
       modify (fun s => { s with trace := s.trace ++ [pr s.heap v] })
       pure v
+    else if name = "probe" then do
+      -- host function of channel `tail` (C09): records the data/scope/address stack depths
+      modify (fun s => { s with trace := s.trace ++ [s!"P{pr s.heap (args.headD .nil)}:{s.data.length}/{s.linear.length}/{s.addr.length}"] })
+      pure .nil
     else if name = "force" then
       match args with
       | [.lazy id] => forceLazy fuel id
